@@ -203,13 +203,17 @@ fn harness_method(did: &str, fragment: &str, salt: u8) -> VerificationMethod {
   let jwk: identity_jose::jwk::Jwk =
     serde_json::from_value(serde_json::json!({"kty":"OKP","crv":"Ed25519","alg":"EdDSA","x": ks::b64(&x)})).unwrap();
   let mut m = VerificationMethod::new_from_jwk(CoreDID::parse(did).unwrap(), jwk, Some(fragment)).expect("harness method builds");
-  // one method in five carries its key as publicKeyMultibase instead of a JWK
-  if salt % 5 == 2 {
+  // one method in five carries its key as publicKeyMultibase instead of a JWK, one in seven as publicKeyBase58
+  if salt % 5 == 2 || salt % 7 == 3 {
     if let Ok(mb) = VerificationMethod::builder(Default::default())
       .id(m.id().clone())
       .controller(m.controller().clone())
       .type_(identity_verification::MethodType::ED25519_VERIFICATION_KEY_2018)
-      .data(identity_verification::MethodData::new_multibase(x))
+      .data(if salt % 5 == 2 {
+        identity_verification::MethodData::new_multibase(x)
+      } else {
+        identity_verification::MethodData::new_base58(x)
+      })
       .build()
     {
       m = mb;
